@@ -173,6 +173,7 @@ class World(WorldBase):
                 "cell": "ortho" if exact else rng.choice(["ortho", "tri"]),
                 "layout": rng.choice(["random", "lattice", "cluster"]),
                 "ppp": [rng.choice([1, 1, 1, 0]) for _ in range(ndim)],
+                "cells": rng.choice(["const", "const", "vary"]),
                 "subseed": rng.randrange(1 << 40),
             }
             c = Config(rec)
